@@ -497,6 +497,115 @@ func oracles(r *vx.Run, in nsx.Input, ast *nsx.Script, ob runObs) {
 			}
 		}
 	}
+	// C03 (e'): one send of a literal amount from an ordered list whose entries are plain literal accounts, possibly
+	// capped by a literal `max` and possibly naming the same account again: entry by entry, each gives what is still
+	// asked for, up to its cap and up to what its account still holds at that point
+	if len(ast.Stmts) == 1 && ast.Stmts[0].K == "send" && ast.Stmts[0].Src.Src != nil && ast.Stmts[0].Src.Src.K == "inorder" && ast.Stmts[0].Mon != nil && ast.Stmts[0].Mon.K == "mon" {
+		asset := ast.Stmts[0].Mon.Asset.Text
+		rem, okAmt := new(big.Int).SetString(ast.Stmts[0].Mon.Text, 10)
+		type entry struct {
+			acc string
+			cap *big.Int
+		}
+		var entries []entry
+		// the destination is one plain account: everything taken is posted (nothing is kept back and repaid)
+		simple := okAmt && ast.Stmts[0].Mon.Asset.K == "asset" && ast.Stmts[0].Dest != nil && ast.Stmts[0].Dest.K == "account"
+		for _, x := range ast.Stmts[0].Src.Src.Srcs {
+			e := entry{}
+			if x.K == "maxed" && x.Max != nil && x.Max.K == "mon" && x.Max.Asset.K == "asset" && x.Max.Asset.Text == asset && x.Src != nil {
+				c, ok := new(big.Int).SetString(x.Max.Text, 10)
+				if !ok {
+					simple = false
+					break
+				}
+				e.cap, x = c, x.Src
+			}
+			if x.K != "account" || x.Ov != "none" || x.Acc == nil || x.Acc.K != "acc" || x.Acc.Text == "world" {
+				simple = false
+				break
+			}
+			e.acc = x.Acc.Text
+			entries = append(entries, e)
+		}
+		if simple && len(entries) > 0 {
+			avail, want := map[string]*big.Int{}, map[string]*big.Int{}
+			for _, e := range entries {
+				if avail[e.acc] == nil {
+					have := big.NewInt(0)
+					if v, ok := in.Balances[e.acc][asset]; ok {
+						have, _ = new(big.Int).SetString(v, 10)
+					}
+					if have == nil || have.Sign() < 0 {
+						have = big.NewInt(0)
+					}
+					avail[e.acc], want[e.acc] = have, big.NewInt(0)
+				}
+				take := new(big.Int).Set(rem)
+				if e.cap != nil && e.cap.Cmp(take) < 0 {
+					take.Set(e.cap)
+				}
+				if avail[e.acc].Cmp(take) < 0 {
+					take.Set(avail[e.acc])
+				}
+				avail[e.acc].Sub(avail[e.acc], take)
+				want[e.acc].Add(want[e.acc], take)
+				rem.Sub(rem, take)
+			}
+			gave := map[string]*big.Int{}
+			for _, p := range ob.Postings {
+				if gave[p.Source] == nil {
+					gave[p.Source] = big.NewInt(0)
+				}
+				gave[p.Source].Add(gave[p.Source], (*big.Int)(p.Amount))
+			}
+			if rem.Sign() == 0 {
+				for a, w := range want {
+					g := gave[a]
+					if g == nil {
+						g = big.NewInt(0)
+					}
+					if g.Cmp(w) != 0 {
+						r.FailP("C03", "order:capped-ordered-source:account-gives-other-than-its-turns-allow", in, fmt.Sprintf("%s gives %s, its entries allow exactly %s", a, g, w), size)
+						break
+					}
+				}
+			}
+		}
+	}
+	// C03 (f): a script that ENDS with `send [A *]` from one plain account (no overdraft) to destinations that keep
+	// nothing back leaves that account with nothing of A: whatever earlier statements took from it and handed back
+	// (kept funds, unused funding) is the account's again when the last send runs
+	if n := len(ast.Stmts); n > 0 && ast.Stmts[n-1].K == "send" && ast.Stmts[n-1].All != nil && ast.Stmts[n-1].All.K == "asset" {
+		last := ast.Stmts[n-1]
+		saves := false
+		for _, st := range ast.Stmts {
+			saves = saves || st.K == "save" // a save withholds funds from later statements on purpose
+		}
+		if !saves && last.Src != nil && last.Src.Src != nil && last.Src.Src.K == "account" && last.Src.Src.Ov == "none" && last.Src.Src.Acc != nil &&
+			last.Src.Src.Acc.K == "acc" && last.Src.Src.Acc.Text != "world" && !destKeeps(last.Dest) && !destMayCredit(last.Dest, last.Src.Src.Acc.Text) {
+			acc, asset := last.Src.Src.Acc.Text, last.All.Text
+			bal := big.NewInt(0)
+			if v, ok := in.Balances[acc][asset]; ok {
+				if x, ok := new(big.Int).SetString(v, 10); ok {
+					bal = x
+				}
+			}
+			for _, p := range ob.Postings {
+				if p.Asset != asset {
+					continue
+				}
+				if p.Source == acc {
+					bal.Sub(bal, (*big.Int)(p.Amount))
+				}
+				if p.Destination == acc {
+					bal.Add(bal, (*big.Int)(p.Amount))
+				}
+			}
+			if bal.Sign() > 0 {
+				r.FailP("C03", "send-all:leaves-funds-behind", in, fmt.Sprintf("after the final `send [%s *]` from @%s the account still holds %s", asset, acc, bal), size)
+			}
+		}
+	}
 	// C01: floor
 	unb, bnd := collectGrants(ast, ob.AllVars)
 	running := map[string]*big.Int{}
@@ -898,6 +1007,53 @@ func variants(script string) []string {
 	return vs
 }
 
+// destKeeps: does the destination keep anything back (a `kept` anywhere in it)?
+func destKeeps(d *nsx.Dest) bool {
+	if d == nil {
+		return false
+	}
+	kod := func(k nsx.Kod) bool { return k.Kept || destKeeps(k.D) }
+	for _, m := range d.Maxes {
+		if kod(m.K) {
+			return true
+		}
+	}
+	if d.Rem != nil && kod(*d.Rem) {
+		return true
+	}
+	for _, a := range d.Allot {
+		if kod(a.K) {
+			return true
+		}
+	}
+	return false
+}
+
+// destMayCredit: may the destination credit the account (it names it, or names an account through a variable)?
+func destMayCredit(d *nsx.Dest, acc string) bool {
+	if d == nil {
+		return false
+	}
+	if d.K == "account" {
+		return d.E == nil || d.E.K != "acc" || d.E.Text == acc
+	}
+	kod := func(k nsx.Kod) bool { return !k.Kept && destMayCredit(k.D, acc) }
+	for _, m := range d.Maxes {
+		if kod(m.K) {
+			return true
+		}
+	}
+	if d.Rem != nil && kod(*d.Rem) {
+		return true
+	}
+	for _, a := range d.Allot {
+		if kod(a.K) {
+			return true
+		}
+	}
+	return false
+}
+
 type firstOb struct {
 	in nsx.Input
 	ob runObs
@@ -996,6 +1152,34 @@ func boundaryFamily() []nsx.Input {
 					allot := fmt.Sprintf("send [USD %d] (\n  source = {\n    1/2 from @a%s\n    1/2 from @a%s\n  }\n  destination = @b\n)\n", x, ov1, ov2)
 					out = append(out, nsx.Input{Script: allot, Vars: map[string]string{}, Balances: bal, Meta: map[string]map[string]string{}, Note: "boundary:allotment-same-account"})
 				}
+			}
+		}
+	}
+	// ordered sources that cap an account and come back to it later, another account in between
+	for _, b := range []int64{0, 4, 100} {
+		for _, cb := range []int64{0, 10} {
+			bal := map[string]map[string]string{"a": {"USD": fmt.Sprint(b)}, "c": {"USD": fmt.Sprint(cb)}}
+			for _, amt := range []int64{3, 5, 6, 12, 15, 16, 110} {
+				for _, shape := range []string{
+					"    max [USD 5] from @a\n    @c\n    @a\n",
+					"    max [USD 5] from @a\n    max [USD 3] from @c\n    max [USD 5] from @a\n    @c\n",
+					"    @c\n    max [USD 5] from @a\n    @c\n    @a\n",
+					"    max [USD 5] from {\n      @a\n      @c\n    }\n    @a\n",
+				} {
+					sc := fmt.Sprintf("send [USD %d] (\n  source = {\n%s  }\n  destination = @b\n)\n", amt, shape)
+					out = append(out, nsx.Input{Script: sc, Vars: map[string]string{}, Balances: bal, Meta: map[string]map[string]string{}, Note: "boundary:capped-ordered-source-revisits-account"})
+				}
+			}
+		}
+	}
+	// a portioned source with @world in FRONT of an ordinary account, part of the funding handed back (kept), then a
+	// later send that draws on the account: what was handed back is the account's again
+	for _, kept := range []string{"    max [USD 10] to @b\n    remaining kept\n", "    max [USD 60] to @b\n    remaining kept\n", "    remaining to @b\n"} {
+		for _, second := range []string{"send [USD *] (\n  source = @a\n  destination = @d\n)\n", "send [USD 80] (\n  source = @a\n  destination = @d\n)\n", "send [USD 51] (\n  source = @a\n  destination = @d\n)\n"} {
+			for _, srcs := range []string{"    50% from @world\n    50% from @a\n", "    50% from @a\n    50% from @world\n", "    1/4 from @world\n    1/4 from @a\n    remaining from @c\n"} {
+				sc := "send [USD 100] (\n  source = {\n" + srcs + "  }\n  destination = {\n" + kept + "  }\n)\n" + second
+				bal := map[string]map[string]string{"a": {"USD": "100"}, "c": {"USD": "100"}}
+				out = append(out, nsx.Input{Script: sc, Vars: map[string]string{}, Balances: bal, Meta: map[string]map[string]string{}, Note: "boundary:world-in-front-of-a-portioned-source-kept"})
 			}
 		}
 	}
@@ -1139,7 +1323,7 @@ func main() {
 	fam := boundaryFamily()
 	for i, in := range fam {
 		// quick tier: a seeded third of the family; thorough: all of it
-		if r.Thorough() || g.Intn(3) == 0 || i%97 == 0 || strings.HasPrefix(in.Note, "boundary:variable-spelling") || in.Note == "boundary:save-then-credit" {
+		if r.Thorough() || g.Intn(3) == 0 || i%97 == 0 || strings.HasPrefix(in.Note, "boundary:variable-spelling") || in.Note == "boundary:save-then-credit" || in.Note == "boundary:world-in-front-of-a-portioned-source-kept" || in.Note == "boundary:capped-ordered-source-revisits-account" {
 			one(r, in)
 			r.Count("boundary-family")
 		}
